@@ -262,8 +262,16 @@ func (prop) Run(t *testing.T, tape *kernel.Tape, sc kernel.Scenario) *kernel.Res
 			req.ContentLength = -1
 		}
 	}
+	seekStart := 0
 	if !nilBody {
 		req.Body = st
+		if sc.Name != "sweep" && st.Term == nil && st.TransientErrAt < 0 && tape.Bool(6, "seekable-body-handed-over-past-its-start") {
+			// like an *os.File or a spooled upload the application has already read an envelope from: the body is what is left
+			seekStart = tape.Choose(len(st.Data)+1, "already-consumed")
+			st.Pos = seekStart
+			req.Body = &seekableBody{Stream: st}
+			env.Fault("seekable-body-handed-over-past-its-start")
+		}
 	}
 	// other requests of the same process: one served to its end before (warm-up), one alive at the same time (sibling)
 	var sib *http.Request
@@ -312,7 +320,7 @@ func (prop) Run(t *testing.T, tape *kernel.Tape, sc kernel.Scenario) *kernel.Res
 		res.Viol = nil
 		res.FromEnv(env)
 	}()
-	m := &model{data: st.Data, term: st.Term, transientAt: st.TransientErrAt}
+	m := &model{data: st.Data[seekStart:], term: st.Term, transientAt: st.TransientErrAt}
 	if m.term == nil {
 		m.term = io.EOF
 	}
@@ -558,4 +566,26 @@ func firstDiff(a, b []byte) int {
 		}
 	}
 	return n
+}
+
+// seekableBody is a body that can also seek (an *os.File, a spooled upload).
+type seekableBody struct{ *kernel.Stream }
+
+func (b *seekableBody) Seek(offset int64, whence int) (int64, error) {
+	var abs int64
+	switch whence {
+	case io.SeekStart:
+		abs = offset
+	case io.SeekCurrent:
+		abs = int64(b.Pos) + offset
+	case io.SeekEnd:
+		abs = int64(len(b.Data)) + offset
+	}
+	if abs < 0 || abs > int64(len(b.Data)) {
+		return 0, fmt.Errorf("seek out of range")
+	}
+	b.Pos = int(abs)
+	b.TermDelivered = false
+	b.Env.Probe("body-seeked")
+	return abs, nil
 }
